@@ -28,6 +28,17 @@ Theorem resp_roundtrip_fresh pmt errmt :
 Proof. intros Hs Hf accept ct k hdr. exact (roundtrip_fresh pmt errmt Hs Hf accept ct k hdr). Qed.
 Print Assumptions resp_roundtrip_fresh.
 
+(* the hypotheses on the parser cannot be dropped: with an arbitrary function in the place
+   of mime.ParseMediaType the statement fails *)
+Theorem resp_roundtrip_fresh_needs_parser_hypotheses :
+  exists pmt errmt accept ct k hdr,
+    response_encoder pmt errmt accept ct [] = (Some k, hdr) /\ response_decoder pmt hdr <> k.
+Proof.
+  exists rewriting_parser, (fun _ => []), [], [], KJson, app_json.
+  destruct rewriting_parser_witness as [W1 W2]. split; [exact W1|rewrite W2; discriminate].
+Qed.
+Print Assumptions resp_roundtrip_fresh_needs_parser_hypotheses.
+
 (* ... and the value comes back: for any codecs that decode what they encode, decoding the
    written body with the decoder selected from the written header recovers the value *)
 Theorem resp_body_roundtrip_fresh pmt errmt cenc cdec :
